@@ -263,12 +263,21 @@ impl<'env> Executor<'env> {
 
         macro_rules! recurse_loop {
             ($capture:expr, $loop_object:expr) => {{
-                let Some(jump_target) = $loop_object.recurse_jump_target else {
+                let Some((owner, jump_target)) = $loop_object.recurse_jump_target else {
                     bail!(Error::new(
                         ErrorKind::InvalidOperation,
                         "cannot recurse outside of recursive loop",
                     ))
                 };
+                // the jump target is an offset into the instructions the loop
+                // belongs to.  An included template or an imported macro that
+                // got hold of the loop runs different instructions.
+                if owner != state.instructions as *const Instructions as usize {
+                    bail!(Error::new(
+                        ErrorKind::InvalidOperation,
+                        "cannot recurse into a loop of another template",
+                    ))
+                }
                 // the way this works is that we remember the next instruction
                 // as loop exit jump target.  Whenever a loop is pushed, it
                 // memorizes the value in `next_loop_iteration_jump` to jump
@@ -1208,7 +1217,8 @@ impl<'env> Executor<'env> {
                 iter,
                 depth,
                 flags & LOOP_FLAG_WITH_LOOP_VAR != 0,
-                (flags & LOOP_FLAG_RECURSIVE != 0).then_some(pc),
+                (flags & LOOP_FLAG_RECURSIVE != 0)
+                    .then_some((state.instructions as *const Instructions as usize, pc)),
                 current_recursion_jump,
             )),
             ..Frame::default()
